@@ -14,6 +14,7 @@ BUDGET = {"quick": 110, "thorough": 2400}
 TAGS = ["normal", "zero", "nan_all", "nan_one", "pinf", "ninf", "huge", "tiny",
         "rank1", "equal", "scaled"]
 PRINCIPAL = ["normal", "zero", "nan_one", "huge", "rank1"]
+TRACE_CASES = True      # expensive cases: record the case in flight so a hang can be named
 RULE = (
     "A case is one compiled Distributed Shampoo configuration (mode in {replicated "
     "jit, pmap with int16-quantised statistics/preconditioners, sharded under a "
